@@ -29,21 +29,28 @@ def run(prop, tier, seed, out):
         if walk.violated:
             raise Broken("Walk.tla violates " + walk.violated)
         must_pass(walk, "Walk")
+        tags = run_tlc(scr, "encrypt", "Tags", "SPECIFICATION Spec\nINVARIANTS Export OnlyPublicTagsArePlain UntaggedAreRedacted PublicPreserved TagDictates\nCHECK_DEADLOCK FALSE\n",
+                       "tags", workers=1, timeout=900, heap="3g")
+        if tags.violated:
+            raise Broken("Tags.tla violates " + tags.violated)
+        must_pass(tags, "Tags")
         out.add_tlc(pol)
         out.add_tlc(walk)
+        out.add_tlc(tags)
         reps = []
         seeds = [seed] if quick else [seed, seed + 1, seed + 2]
         for s in seeds:
             reps.append(("policy", replay(vh, scr, "policy", pol.out_path, s, "policy-%d" % s)))
             reps.append(("walk", replay(vh, scr, "walk", walk.out_path, s, "walk-%d" % s)))
             reps.append(("taggable", replay(vh, scr, "taggable", pol.out_path, s, "taggable-%d" % s)))
+            reps.append(("tags", replay(vh, scr, "tags", tags.out_path, s, "tags-%d" % s)))
         known = {f["id"]: f for f in known_for(prop)}
         cov = out.coverage
         cov["traces_validated_against_impl"] = sum(r["runs"] for _, r in reps)
         cov["evaluations"] = sum(r["runs"] for _, r in reps)
         cov["distinct_nontrivial"] = max(r["distinct_nontrivial"] for k, r in reps if k == "policy") + max(r["distinct_nontrivial"] for k, r in reps if k == "walk")
         cov["rule"] = ("one evaluation = one state of Policy.tla (class spelling x operation spelling x override map x wrapper present/absent/failing) or of Walk.tla (payload shape up to "
-                       "the depth bound) or one pointer-tag vector, built with reflect and run through the real encrypt.Filter; non-trivial = vectors whose event is forwarded and checked leaf by leaf")
+                       "the depth bound) or of Tags.tla (one or two pointer tags on a Taggable map four levels deep, dangling pointers included), built with reflect and run through the real encrypt.Filter; non-trivial = vectors whose event is forwarded and checked leaf by leaf")
         cov["exhaustive"] = True
         cov["walk_outcomes_by_class"] = [r["class_counts"] for k, r in reps if k == "walk"][0]
         for _, r in reps:
